@@ -229,9 +229,7 @@ class ReaderCheck:
         self.qtime = 0.0
 
     def new_reader(self, m, k=None):
-        begin = 0 if k is None else self.buf_size - k
-        buf = Arr(self.buf_size, I(0, 'u8'))
-        return [buf, I(begin, 'usize'), I(begin, 'usize'), Opaque('stdin'), False]
+        return self.prog.fresh_reader(m, k)
 
     def run_impl_op(self, m, rref, op):
         P = self.prog
